@@ -135,6 +135,33 @@ def r18_2(chk):
     chk.ob('R18.2', ok, CONECYL, fname, 'pressure: 2 pi P int_0^L sin(i pi x/L)(r2 + x sina) dx', expected='P*2L/i*(r2 - (-1)^i (r2 + L sina))', got=got,
            sample='pressure term == exact Fourier integral with s = (-1)^i')
 
+    # a load term skipped by `if X != 0` must be a term in X itself (not in a differently scaled sibling of X)
+    ng = 0
+    for n in ast.walk(fn):
+        if isinstance(n, ast.If) and isinstance(n.test, ast.Compare) and len(n.test.ops) == 1 and isinstance(n.test.ops[0], ast.NotEq) \
+                and isinstance(n.test.comparators[0], ast.Constant) and n.test.comparators[0].value == 0 and isinstance(n.test.left, (ast.Name, ast.Attribute)):
+            g = norm(n.test.left)
+            used = set()
+            stores = 0
+            for st in n.body:
+                for x in ast.walk(st):
+                    if isinstance(x, (ast.Assign, ast.AugAssign)):
+                        tg = x.targets[0] if isinstance(x, ast.Assign) else x.target
+                        if isinstance(tg, ast.Subscript) or isinstance(x, ast.AugAssign):
+                            stores += 1
+                        # plain assignments feed the stores (fpt = [0, T/r2, 0]; fext += fpt.dot(gu))
+                        for y in ast.walk(x.value):
+                            if isinstance(y, (ast.Name, ast.Attribute)):
+                                used.add(norm(y))
+            if not stores:
+                continue
+            ng += 1
+            chk.ob('R18.2', g in used, CONECYL, fname, 'terms under `if %s != 0` are terms in %s' % (g, g), line=n.lineno,
+                   expected='the guarded load terms contain %s as a factor' % g, got=sorted(u for u in used if u.split('.')[-1] == g.split('.')[-1]),
+                   detail='' if g in used else 'the guard tests %s but the terms use another quantity: they are skipped although they do not vanish (e.g. purely incremental load)' % g,
+                   sample='calc_fext: `if %s != 0` guards terms in %s' % (g, g))
+    chk.floor('R18.2 zero-load guards', ng, 2)
+
 
 def r18_3(chk):
     """every prescribed amplitude with a value contributes -inc*value*k0uk[:, dof] to the right-hand side"""
